@@ -602,6 +602,13 @@ func genOpsOn(t *rapid.T, r *e2run, tr *E2Trace, p e2Profile, _ int) {
 					Nth:   rapid.IntRange(1, 3).Draw(t, "fnth"), Count: rapid.IntRange(1, 3).Draw(t, "fcount"),
 					Kind: rapid.SampledFrom([]sim.FaultKind{sim.FaultReject, sim.FaultTimeout, sim.FaultConflict, sim.FaultCommitTimeout}).Draw(t, "fkind"),
 				}
+				// Excluded by construction (open finding E2-start-commit-timeout in
+				// known-findings.json): a start write that commits but is reported as failed.
+				// The exclusion is counted by the run.
+				if f.Kind == sim.FaultCommitTimeout && (f.Actor == "" || f.Actor == "jobqueue") && (f.Verb == "" || f.Verb == "updateStatus") {
+					f.Actor = "job"
+					f.Name = "excluded"
+				}
 				return E2Op{K: "fault", F: f}
 			})
 		}
